@@ -205,6 +205,14 @@ func tee(s *simrt.Sim) {
 	if (src.FailAt >= 0 && src.FailAt <= len(data) || w.FailAt >= 0 && w.FailAt < len(data)) && err == io.EOF && !bytes.Equal(got, data) {
 		s.Fail("tee-error-swallowed", desc+": a failure ended the stream with EOF")
 	}
+	if s.Choose(3, "teestop") == 0 {
+		// Stop detaches (and closes) the writer; the source is still Close's to close, exactly once
+		desc += ", Stop before Close"
+		tr.Stop()
+		if src.Closes != 0 {
+			s.Fail("tee-close-count", desc+fmt.Sprintf(": Stop closed the source (%d times)", src.Closes))
+		}
+	}
 	tr.Close()
 	tr.Close()
 	if src.Closes != 1 || w.Closes != 1 {
